@@ -5,7 +5,7 @@
 set -u
 P="$1"; K="$2"; shift 2
 ROUND="${ROUND:-1}"
-if [ "$ROUND" = "6" ]; then SRC=/tmp/seed6_$P; N=$(ls -d /verif/seeded/$P-* 2>/dev/null | grep -v "/$P-$((K+${BASE6:-8}))$" | wc -l); ID="$P-$((K+${BASE6:-8}))"; elif [ "$ROUND" = "5" ]; then SRC=/tmp/seed5_$P; ID="$P-$((K+8))"; elif [ "$ROUND" = "4" ]; then SRC=/tmp/seed4_$P; ID="$P-$((K+6))"; elif [ "$ROUND" = "3" ]; then SRC=/tmp/seed3_$P; ID="$P-$((K+4))"; elif [ "$ROUND" = "2" ]; then SRC=/tmp/seed2_$P; ID="$P-$((K+2))"; else SRC=/tmp/seed_$P; ID="$P-$K"; fi
+if [ "$ROUND" = "7" ]; then SRC=/tmp/seed7_$P; ID="$P-$((K+${BASE7:-10}))"; elif [ "$ROUND" = "6" ]; then SRC=/tmp/seed6_$P; N=$(ls -d /verif/seeded/$P-* 2>/dev/null | grep -v "/$P-$((K+${BASE6:-8}))$" | wc -l); ID="$P-$((K+${BASE6:-8}))"; elif [ "$ROUND" = "5" ]; then SRC=/tmp/seed5_$P; ID="$P-$((K+8))"; elif [ "$ROUND" = "4" ]; then SRC=/tmp/seed4_$P; ID="$P-$((K+6))"; elif [ "$ROUND" = "3" ]; then SRC=/tmp/seed3_$P; ID="$P-$((K+4))"; elif [ "$ROUND" = "2" ]; then SRC=/tmp/seed2_$P; ID="$P-$((K+2))"; else SRC=/tmp/seed_$P; ID="$P-$K"; fi
 D=/tmp/seedconf_$ID
 OUT=/verif/seeded/$ID
 mkdir -p "$OUT"
